@@ -334,6 +334,42 @@ func ruleTraversalComplete(c *eng.Ctx) {
 		if !done {
 			c.Unk(rule, "subtreesCollector:append", col.Pos(), "the append to the subtree list was not found")
 		}
+		// ownership: the list a collector returns is handed to the scheduler goroutine over a
+		// channel while the worker goes on to the next tree, so it must be a list of its own:
+		// allocated in subtreesCollector, not built on a buffer the caller keeps
+		for _, b := range col.Blocks {
+			for _, in := range b.Instrs {
+				st, ok := in.(*ssa.Store)
+				if !ok {
+					continue
+				}
+				cell, isCell := st.Addr.(*ssa.Alloc)
+				if !isCell || !strings.HasSuffix(st.Val.Type().String(), "restic.IDs") {
+					continue
+				}
+				_ = cell
+				fresh := true
+				for _, o := range eng.Origins(st.Val, nil) {
+					switch x := o.(type) {
+					case *ssa.Parameter:
+						fresh = false
+					case *ssa.FreeVar:
+						fresh = false
+					case *ssa.Global:
+						fresh = false
+					case *ssa.Call:
+						_ = x
+						fresh = false
+					}
+				}
+				if sl, isSl := st.Val.(*ssa.Slice); isSl {
+					if _, fromParam := sl.X.(*ssa.Parameter); fromParam {
+						fresh = false
+					}
+				}
+				c.Check(fresh, rule, "subtreesCollector:list-is-freshly-allocated", st.Pos(), "the subtree list starts as a new allocation inside subtreesCollector (a caller-provided buffer would be overwritten by the next tree while the scheduler still reads it)")
+			}
+		}
 	}
 	// 2. the scheduler queues every non-null subtree it is handed
 	if ft := c.NeedFn(rule, pkgData+".filterTrees"); ft != nil {
@@ -398,6 +434,26 @@ func ruleTraversalComplete(c *eng.Ctx) {
 			}
 		}
 		c.Check(len(procs) == 1, rule, "loadTreeWorker:process-called", w.Pos(), "the worker calls process at one place (%d)", len(procs))
+		// the worker keeps no reference to a list it handed over: no variable carried from one
+		// iteration to the next holds a subtree list
+		carried := false
+		for _, b := range w.Blocks {
+			for _, in := range b.Instrs {
+				phi, ok := in.(*ssa.Phi)
+				if !ok || !strings.HasSuffix(phi.Type().String(), "restic.IDs") {
+					continue
+				}
+				// loop-carried: some incoming edge comes from a block the phi's block dominates
+				for i, pr := range b.Preds {
+					if b.Dominates(pr) && i < len(phi.Edges) {
+						if k, isK := phi.Edges[i].(*ssa.Const); !(isK && k.IsNil()) {
+							carried = true
+						}
+					}
+				}
+			}
+		}
+		c.Check(!carried, rule, "loadTreeWorker:no-list-kept-across-trees", w.Pos(), "no subtree list survives from one loaded tree to the next in the worker")
 		for _, b := range w.Blocks {
 			for _, in := range b.Instrs {
 				sel, ok := in.(*ssa.Select)
